@@ -31,7 +31,7 @@ for pid, mons in sorted(obs.items()):
     for k, v in old.items():
         if k in mons:
             # at least the quick threshold (thorough explores a superset of the quick generator's classes), at most half of observed
-            new[k] = max(min(quick.get(k, 0), mons[k]), int(mons[k] * 0.5))
+            new[k] = max(min(quick.get(k, 0), mons[k]), int(mons[k] * 0.4))
             new[k] = min(new[k], int(mons[k] * 0.8)) if mons[k] else 0
         else:
             new[k] = v
